@@ -232,3 +232,64 @@ LEVEL_TEXT = ("Lean theorems: the eight bin types denote the documented relation
               "complement of below=. The comparison kernels are machine-translated from /repo on every run and "
               "proved equal to the model; the remaining glue is tied by an exhaustive order-type correspondence.")
 TECHNIQUE = "Lean 4 proof over a model; model regenerated from source (translator) + exhaustive differential correspondence"
+
+
+# ------------------------------------------------------------------ frequency / histogram counts (output.py)
+# "every part of the program that turns values into events (… frequency and histogram counts …) agrees on them": the
+# counting loops of verif.output.Freq / Hist are C16's subject (model, theorems C16_def_freq / C16_def_hist,
+# oracle); a sample of C16's freq / hist ops with every within-type bin runs here too, so that ./check C07 on its own
+# sees a bin-type slip that is local to those loops (seeded change C07e: searchsorted side taken from upper_eq only).
+def _c16():
+    import props.c16 as c16
+    return c16
+
+
+def _freqhist_ops(tier, rng):
+    c16 = _c16()
+    import diaglib as D
+    for k in range(24 if tier == "quick" else 400):
+        name = ("freq", "hist")[k % 2]
+        ds = c16._with_cases(rng, "det", None, False)
+        o = c16.gen_options(rng, name, ds)
+        o["b"] = ["within", "=within=", "within=", "=within"][(k // 2) % 4]
+        if "r" not in o or len(o["r"]) < 3:
+            o["r"] = [0.0, 1.0, 2.0, 3.0]          # >= 3 increasing thresholds, values of the grid lie on them
+        yield "cmp.freqhist", D.enc_op(name, o, ds)
+
+
+_gen_ops0, _impl0, _spec_op0, _judge0, _nontrivial0 = gen_ops, impl, spec_op, judge, nontrivial
+
+
+def gen_ops(tier, rng):
+    for s in _gen_ops0(tier, rng):
+        yield s
+    for s in _freqhist_ops(tier, rng):
+        yield s
+
+
+def _is16(op):
+    return op.startswith("diag ")
+
+
+def impl(op):
+    return _c16().impl(op) if _is16(op) else _impl0(op)
+
+
+def lean_op(op):
+    return _c16().lean_op(op) if _is16(op) else op
+
+
+def spec_op(op):
+    return _c16().spec_op(op) if _is16(op) else _spec_op0(op)
+
+
+def cmp(op, impl_out, model_out):
+    return _c16().cmp(op, impl_out, model_out) if _is16(op) else impl_out == model_out
+
+
+def judge(op, impl_out, spec_out):
+    return _c16().judge(op, impl_out, spec_out) if _is16(op) else _judge0(op, impl_out, spec_out)
+
+
+def nontrivial(op, out):
+    return _c16().nontrivial(op, out) if _is16(op) else _nontrivial0(op, out)
